@@ -20,8 +20,37 @@ from .common import loc
 from .pbnfile import LineStream, OutStream
 
 
+_DEBUG_LOGGING = False
+
+
+def _asks_log_level(repo) -> bool:
+    """Does any module of the package ask its logger which level is enabled (so that behaviour can depend on the logging configuration)?"""
+    import re as _re
+    return any(_re.search(r'isEnabledFor|getEffectiveLevel|\.level\b|\.disabled\b', m.src) for m in repo.modules.values())
+
+
+def both_log_levels(fn):
+    """Runs a whole-document rule under both answers of the logging configuration when the package asks for it: server.main and
+    client.main switch DEBUG logging on, a library user leaves it off - the property holds for both."""
+    import functools
+
+    @functools.wraps(fn)
+    def w(chk, *a, **k):
+        global _DEBUG_LOGGING
+        r = fn(chk, *a, **k)
+        if _asks_log_level(chk.repo):
+            _DEBUG_LOGGING = True
+            try:
+                r = fn(chk, *a, **k)
+            finally:
+                _DEBUG_LOGGING = False
+        return r
+    return w
+
+
 def _folder(repo) -> Folder:
     f = Folder(repo, allow_loops=True, max_steps=3_000_000)
+    f.debug_logging = _DEBUG_LOGGING
     f.stubs['json.dumps'] = lambda *a, **k: _dumps(*a, **k)
     f.stubs['json.load'] = lambda fp, *a, **k: json.loads(fp.read())
     f.stubs['json.loads'] = lambda s, *a, **k: json.loads(s)
@@ -61,6 +90,7 @@ def _show(v, f: Folder):
     return repr(v)[:80]
 
 
+@both_log_levels
 def log_rule(chk, rule='C12.R6'):
     repo = chk.repo
     f = _folder(repo)
@@ -98,7 +128,7 @@ def log_rule(chk, rule='C12.R6'):
     boards = [
         dict(board_id='1', names=('w', 'n', 'e', 's'), dealer='N', deal=hands(0), bids=['C1', 'Pass', 'NT3', 'Pass', 'Pass', 'Pass'], contract=c_played,
              play=[t1, t2], tricks=9, scores={'NS': 600, 'EW': -600}, dda=dda, what='played, with a double-dummy table'),
-        dict(board_id='Board 2 (replay)', names=("O'Neil #2", 'n', 'e', 's'), dealer='E', deal=hands(2), bids=['Pass', 'Pass', 'Pass', 'Pass'], contract=c_out,
+        dict(board_id='[2, 3, ] {"a": 1,}', names=("O'Neil #2", 'Zo\u00eb \\ "q", ]', '}],', '\n\t'), dealer='E', deal=hands(2), bids=['Pass', 'Pass', 'Pass', 'Pass'], contract=c_out,
              play=None, tricks=None, scores={'NS': 0, 'EW': 0}, dda=None, what='passed out, no double-dummy table, after a board that had one'),
         # (ids and names are text over an alphabet that contains the space: kept verbatim, also at either end)
         dict(board_id=' 3 ', names=('w ', ' n', 'e', 's'), dealer='S', deal=hands(4), bids=['H4', 'X', 'Pass', 'Pass', 'Pass'], contract=c_dbl,
@@ -180,6 +210,7 @@ def log_rule(chk, rule='C12.R6'):
     chk.floor(rule, 'board sequences written through one writer and read back', n, 3)
 
 
+@both_log_levels
 def settings_rule(chk, rule='C17.R7'):
     repo = chk.repo
     f = _folder(repo)
@@ -193,7 +224,7 @@ def settings_rule(chk, rule='C17.R7'):
         h = deals[i % len(deals)][1]
         return f._construct(repo.cls('Hands'), [], {'north_hand': set(h['N']), 'east_hand': set(h['E']), 'south_hand': set(h['S']), 'west_hand': set(h['W'])})
     dda = {P[p]: {SU[s]: (i + 2 * j) % 14 for j, s in enumerate(('C', 'D', 'H', 'S', 'NT'))} for i, p in enumerate(SEATS)}
-    boards = [dict(board_id=' A 1', dealer='N', vul='NONE', deal=hands(0), dda=dda), dict(board_id='2', dealer='E', vul='NS', deal=hands(3), dda=None),
+    boards = [dict(board_id=' A 1', dealer='N', vul='NONE', deal=hands(0), dda=dda), dict(board_id='[Lauria, Versace, ] \u00e9 "', dealer='E', vul='NS', deal=hands(3), dda=None),
               dict(board_id='2', dealer='S', vul='EW', deal=hands(5), dda=None), dict(board_id='x/4 ', dealer='W', vul='BOTH', deal=hands(len(deals) - 1), dda=dda)]
     n = 0
     for oi, order in enumerate([[0, 1, 2, 3], [1, 0, 2], [], [3]]):
